@@ -226,7 +226,7 @@ class Harness:
         def run_path(path_name, init_globals=None, run_name=None):
             h.calls.append(("run_path", dict(path=path_name, run_name=run_name, init_globals=init_globals, **h._where())))
             if h.run_path_effect is not None:
-                raise h.run_path_effect()
+                raise h.run_path_effect(path_name)
             return {}
 
         def run_module(mod_name, init_globals=None, run_name=None, alter_sys=False):
@@ -478,7 +478,7 @@ def _merge(total, part):
 ARG_POOL = ["a", "-i", "-c", "-m", "--spy", "-h", "--help", "-v", "--version", "--", "-", "-x", "--repl-output-fn=x",
             "-E", "-B", "-ic", "with space", "ünï", "-u", "--unknown=1", "f.hy", "(print 1)"]
 PREFIXES = [[], ["-B"], ["--spy"], ["-B", "-E"], ["--repl-output-fn=repr"]]
-ENDINGS = ("ok", "exit", "raise", "stderr", "hy-error")
+ENDINGS = ("ok", "exit", "raise", "stderr", "hy-error", "raise-file-not-found", "raise-os-error", "exit-with-a-message", "hy-error-at-run-time")
 
 
 def gen_program(rng, k, ending):
@@ -505,6 +505,14 @@ def gen_program(rng, k, ending):
         lines.append(f"(sys.exit {rng.choice([0, 1, 2, 3, 42])})")
     elif ending == "raise":
         lines.append(f"(raise (ValueError \"boom {k}\"))")
+    elif ending == "raise-file-not-found":
+        lines.append(f"(open \"/nonexistent-hv-c41/missing-{k}\")")            # the program, not hy, fails to open a file
+    elif ending == "raise-os-error":
+        lines.append(f"(raise (PermissionError 13 \"denied {k}\" \"some-file\"))")
+    elif ending == "exit-with-a-message":
+        lines.append(f"(sys.exit \"bye {k}\")")
+    elif ending == "hy-error-at-run-time":
+        lines.append("(hy.eval '(fn))")                                          # a HyLanguageError raised while the program runs
     elif ending == "stderr":
         lines.append("(print \"to stderr\" :file sys.stderr)")
     elif ending == "hy-error":
@@ -548,7 +556,7 @@ def runpy_call_shape():
 def part2(chk, scratch):
     rng = random.Random(1000003 * (chk.seed + 1) + 41)
     quick = chk.tier == "quick"
-    nprog = 5 if quick else 25
+    nprog = len(ENDINGS) if quick else 3 * len(ENDINGS)
     nargs = 2 if quick else 4
     rundir, moddir = os.path.join(scratch, "run"), os.path.join(scratch, "mods")
     os.makedirs(rundir)
@@ -762,20 +770,29 @@ def file_mode_contract(chk, scratch):
         chk.notes.append("runhy.run_path fails with the same arity error as file-mode/_get_code_from_file/call-shape; not reported twice")
 
     # exits of the FILE branch: a missing file and a Hy error are turned into exit statuses without a traceback
-    def missing():
-        return FileNotFoundError(2, "No such file or directory", "nofile.hy")
+    def missing(path):
+        return FileNotFoundError(2, "No such file or directory", path)          # what open() raises for the script itself
 
-    def hyerr():
+    def program_fnf(path):
+        return FileNotFoundError(2, "No such file or directory", "/nonexistent/data.txt")    # raised by the running program
+
+    def hyerr(path):
         return HyLanguageError("hv-c41 scripted error")
     cwd = os.path.join(scratch, "cli")
-    for name, eff, want in (("missing file exits with errno and a one-line message", missing, 2),
-                            ("Hy error exits with status 1", hyerr, 1)):
+    for name, eff, want in (("missing file exits with errno and a one-line message", missing, ("exit", 2)),
+                            ("a FileNotFoundError raised by the program itself propagates like any other exception", program_fnf,
+                             ("raise", "FileNotFoundError")),
+                            ("Hy error exits with status 1", hyerr, ("exit", 1))):
         with Harness(cwd, run_path_effect=eff) as h:
             ob = h.observe(["f.hy", "arg"], False)
-        ok = ob["outcome"] == ("exit", want)
-        if want == 2:
-            ok = ok and "Can't open file 'nofile.hy'" in ob["stderr"] and "Traceback" not in ob["stderr"]
-        chk.ob(f"file-mode/{name}", ok, "rtc", "bounded", detail=f"outcome={ob['outcome']} stderr={ob['stderr'][-200:]!r}")
+        if want[0] == "exit":
+            ok = ob["outcome"] == want
+        else:
+            ok = ob["outcome"][0] == "raise" and str(ob["outcome"][1]).startswith(want[1])
+        if want == ("exit", 2):
+            ok = ok and "Can't open file '" in ob["stderr"] and "f.hy'" in ob["stderr"] and "Traceback" not in ob["stderr"]
+        chk.ob(f"file-mode/{name}", ok, "rtc", "bounded", detail=f"outcome={ob['outcome']} stderr={ob['stderr'][-200:]!r}",
+               replay={"confirmed": True, "input": "hy FILE where the program runs (open \"/nonexistent/data.txt\")"} if not ok and eff is program_fnf else None)
         chk.case(("file-exit", name))
 
 
